@@ -74,7 +74,8 @@ def extra_checks(run):
     if not run.harness:
         return res
     env = dict(os.environ, GOFLAGS="-mod=mod", GOPROXY="off", GOSUMDB="off", GOTOOLCHAIN="local", GORACE="exitcode=0")
-    rounds, ops = ("8", "300") if run.tier == "quick" else ("40", "600")
+    # (a round takes about 10 ms: the window of a defect at word granularity is hit in some rounds only, so there are many)
+    rounds, ops = ("80", "500") if run.tier == "quick" else ("160", "800")
     binary = run.harness
     race = False
     if run.tier == "thorough":
